@@ -347,35 +347,33 @@ func (f *Frame) enterLoop(h *ssa.BasicBlock, li *loopInfo, live []inEdge, header
 	}
 	// havoc
 	st := entry.clone()
+	r := c.fresh("inloop", SBool)
+	// The path condition at loop entry talks about SSA values defined before
+	// the loop and heap versions that existed before the loop; it stays valid
+	// in every iteration and is kept.
+	st.Reach = c.define("reach", And(r, f.entryFacts(entry)))
 	keys, cells, all := f.loopModified(li)
 	if all {
-		st.Heap = map[string]Term{}
 		c.havocAllHeap(st)
 	}
 	for k := range keys {
 		cur := c.heapGet(st, k, c.eng.keySort(k))
 		st.Heap[k] = c.fresh("loopheap", cur.Sort)
 	}
-	for cell := range cells {
-		st.Cells[cell] = c.freshLeaves("loopcell_"+cell.Name, cell.Typ)
-		st.assume(c, typeInv(cell.Typ, st.Cells[cell]))
-	}
 	na := c.fresh("loopalloc", SInt)
 	c.assert(Ge(na, entry.Alloc))
 	st.Alloc = na
+	for cell := range cells {
+		st.Cells[cell] = c.freshLeaves("loopcell_"+cell.Name, cell.Typ)
+		st.assume(c, typeInv(cell.Typ, st.Cells[cell]))
+		st.assume(c, refsBelow(cell.Typ, st.Cells[cell], na))
+	}
 	for _, p := range phis {
 		vs := c.freshLeaves("loop_"+p.Comment, p.Type())
 		f.vals[p] = vs
 		st.assume(c, typeInv(p.Type(), vs))
+		st.assume(c, refsBelow(p.Type(), vs, na))
 	}
-	r := c.fresh("inloop", SBool)
-	st.Reach = r
-	// facts known before the loop that do not depend on modified state stay in
-	// the prelude (definitions); path facts are re-assumed through entry.Reach
-	// only when nothing they mention was havocked. We keep it simple: the
-	// invariant carries what is needed; the entry path condition is kept since
-	// it only speaks about pre-loop values (SSA) and pre-loop heap versions.
-	st.Reach = c.define("reach", And(r, f.entryFacts(entry)))
 	for _, iv := range invs {
 		st.assume(c, iv.eval(f, st, phis, nil))
 	}
@@ -561,19 +559,19 @@ func (f *Frame) evalLoopClause(cl *Clause, st *State, phis []*ssa.Phi, next map[
 				}
 			}
 			if found == nil {
-				panic(fmt.Sprintf("%s: loop clause cell %q not found", f.label, cname))
+				panic(unsupportedErr{fmt.Sprintf("contract-target-changed: %s: loop clause cell %q not found", f.label, cname)})
 			}
 			ptr := f.get(found)
 			args = append(args, f.ctx.load(st, f.ctx.shapeOf(ptr[0], found.Type())))
 			continue
 		}
 		if vi >= len(phis) {
-			panic(fmt.Sprintf("%s: loop clause %s:%d declares more variables than the loop header has phis (%d)", f.label, cl.File, cl.Line, len(phis)))
+			panic(unsupportedErr{fmt.Sprintf("contract-target-changed: %s: loop clause %s:%d declares more variables than the loop header has (%d: %s)", f.label, shortPos(cl.File), cl.Line, len(phis), phiNames(phis))})
 		}
 		p := phis[vi]
 		vi++
 		if !types.Identical(p.Type(), pv.Type()) {
-			panic(fmt.Sprintf("%s: loop variable %d (%s) has type %v, clause declares %v", f.label, i, p.Comment, p.Type(), pv.Type()))
+			panic(unsupportedErr{fmt.Sprintf("contract-target-changed: %s: loop variable %d (%s) has type %v, clause declares %v", f.label, i, p.Comment, p.Type(), pv.Type())})
 		}
 		if next != nil {
 			args = append(args, next[p])
@@ -582,7 +580,7 @@ func (f *Frame) evalLoopClause(cl *Clause, st *State, phis []*ssa.Phi, next map[
 		}
 	}
 	if vi != len(phis) && vi != 0 {
-		panic(fmt.Sprintf("%s: loop clause %s:%d binds %d of %d header phis (%s)", f.label, cl.File, cl.Line, vi, len(phis), phiNames(phis)))
+		panic(unsupportedErr{fmt.Sprintf("contract-target-changed: %s: loop clause %s:%d binds %d of %d loop-carried variables (%s)", f.label, shortPos(cl.File), cl.Line, vi, len(phis), phiNames(phis))})
 	}
 	return f.ctx.evalSpecFn(cl.Fn, args, st, f.entryHeap(), f)
 }
